@@ -541,7 +541,7 @@ PROPERTY = {
                    "relations for every pair of modes, multiplicativity, linearity and annihilation of the encoded vacuum are decided exactly in the Pauli algebra "
                    "from the AST of Tangelo's mapping code for every mode up to the bound - together these characterise the Fock representation up to unitary "
                    "equivalence (cited), hence equal spectra. Relabelling, dispatch, the combinatorial phase rule and configuration numbering are decided "
-                   "exhaustively up to the bound. The sector encodings (scBK, HCB) are compared with the restricted fermionic spectrum numerically: bounded. Unbounded: the up_then_down relabelling for EVERY even register size and every mode indices (P1: symbolic integers; the numpy index table as a symbolic-length array): letter-by-letter relabelling with an injective map into [0, n).",
+                   "exhaustively up to the bound. The sector encodings (scBK, HCB) are compared with the restricted fermionic spectrum numerically: bounded. Unbounded: the up_then_down relabelling for EVERY even register size and every mode indices (P1: symbolic integers; the numpy index table as a symbolic-length array): letter-by-letter relabelling with an injective map into [0, n). The front end gives the same encoded operator for Tangelo / openfermion FermionOperators and InteractionOperators (O12), and the EXPLICIT arguments decide the scBK sector whatever annotations the operator object carries (O6).",
     "bounds": {"quick": "registers of 2 and 4 spin-orbitals (all modes), 6 for partial support; scBK: every (n_e, spin) sector of 2-3 orbitals (every 2nd), 2 random Hamiltonians each", "thorough": "registers up to 6"},
     "assumptions": ["openfermion jordan_wigner / bravyi_kitaev / QubitOperator arithmetic executed natively (assumed)", "uniqueness of the Fock representation (CAR + vacuum) is cited mathematics",
                     "spectra of sector encodings: floating-point eigenvalues, tolerance 1e-8 (bounded stand-in)"],
